@@ -234,6 +234,9 @@ def r_block_coordinates(ctx):
 def check(ctx):
     r_filter(ctx)
     r_block_coordinates(ctx)
+    # the grouping key is block_split's labels: the function is part of what this property's functions do, so the generic rules (library
+    # keywords outside the model, flatten order, conversions ...) look at it under this property as well (its own rules are C08's)
+    ctx.paths("verde.coordinates.block_split")
     # callee-side contracts the alignment of points, data and weights rests on (assume/guarantee): check_fit_input returns the
     # validated values unreordered and C-raveled; n_1d_arrays / kdtree number the points in the same order
     from . import c02
